@@ -64,6 +64,11 @@ def check(report: Report, repo: Repo) -> None:
     g2 = {"params": [p3], "weight_decay": gwd, "momentum": O("momentum")}
     scenarios.append(("groups", [g1, g2], dict(lr=lr, weight_decay=wd), [(p1, glr, wd, {"betas": g1["betas"], "eps": g1["eps"]}), (p2, glr, wd, {"betas": g1["betas"], "eps": g1["eps"]}), (p3, lr, gwd, {"momentum": g2["momentum"]})]))
     p1, p2, p3, pu = mk()
+    # groups that went through a scheduler before (resuming): its bookkeeping keys are options like any other
+    gs_ = {"params": [p1, p3], "lr": glr, "initial_lr": O("initial_lr"), "max_lr": O("max_lr"), "min_lr": O("min_lr"), "base_momentum": O("base_momentum"), "capturable": False}
+    exs_ = {k_: gs_[k_] for k_ in gs_ if k_ not in ("params", "lr")}
+    scenarios.append(("group carrying scheduler bookkeeping (initial_lr, max_lr, min_lr, ...)", [gs_, {"params": [p2], "initial_lr": O("initial_lr2")}], dict(lr=lr, weight_decay=wd), [(p1, glr, wd, exs_), (p3, glr, wd, exs_), (p2, lr, wd, {"initial_lr": None})]))
+    p1, p2, p3, pu = mk()
     scenarios.append(("untagged-allowed", [p1, pu, p3], dict(lr=lr, weight_decay=wd, allow_non_unit_scaling_params=True), [(p1, lr, wd, {}), (pu, lr, wd, {}), (p3, lr, wd, {})]))
     p1, p2, p3, pu = mk()
     scenarios.append(("group-lr-only", [{"params": [p2]}, {"params": [p1], "lr": glr, "weight_decay": gwd}], dict(lr=lr), [(p2, lr, 0, {}), (p1, glr, gwd, {})]))
